@@ -34,6 +34,8 @@ pub enum Anchor {
     /// immediately before / after the k-th loop statement
     LoopBefore(usize),
     LoopAfter(usize),
+    /// after the k-th top-level statement of the body (counted in the repository's text, before any rewrite)
+    StmtAfter(usize),
     /// snippet, and which innermost match in source order (None: it must be the only one)
     After(String, Option<usize>),
     Before(String, Option<usize>),
@@ -181,6 +183,13 @@ pub fn parse(text: &str, path: &str) -> Contracts {
                         "after" => Anchor::LoopAfter(k),
                         _ => die(&format!("{}:{}: @insert loop <k> begin|end|before|after", path, ln)),
                     }
+                } else if a.starts_with("stmt ") {
+                    let parts: Vec<&str> = a.split_whitespace().collect();
+                    if parts.len() != 3 || parts[2] != "after" {
+                        die(&format!("{}:{}: @insert stmt <k> after", path, ln));
+                    }
+                    let k: usize = parts[1].parse().unwrap_or_else(|_| die(&format!("{}:{}: bad statement ordinal", path, ln)));
+                    Anchor::StmtAfter(k)
                 } else if a.starts_with("after ") {
                     let (q, n) = split_nth(&a["after ".len()..], path, ln);
                     Anchor::After(unquote(q, path, ln), n)
